@@ -54,6 +54,8 @@ func (s *Scheme) SetStoredData(d []byte) {
 }
 
 func (s *Scheme) HandleMessage(msg *IncMessage) {
+	s.setupOnce.Do(s.setup)
+
 	switch msg.MsgType {
 	case uint8(MsgTypeSync):
 		s.handleSync(msg)
